@@ -33,6 +33,11 @@ func (o *OCIDir) ManifestDelete(ctx context.Context, r ref.Ref, opts ...scheme.M
 	if r.Digest == "" {
 		return fmt.Errorf("digest required to delete manifest, reference %s%.0w", r.CommonName(), errs.ErrMissingDigest)
 	}
+	// the digest is used to build a filename, it must be validated even when the manifest is provided by the caller
+	d := digest.Digest(r.Digest)
+	if err := d.Validate(); err != nil {
+		return fmt.Errorf("invalid digest in reference: %s: %w", r.Digest, err)
+	}
 
 	mc := scheme.ManifestConfig{}
 	for _, opt := range opts {
@@ -82,7 +87,6 @@ func (o *OCIDir) ManifestDelete(ctx context.Context, r ref.Ref, opts ...scheme.M
 	}
 
 	// delete from filesystem like a registry would do
-	d := digest.Digest(r.Digest)
 	file := path.Join(r.Path, "blobs", d.Algorithm().String(), d.Encoded())
 	err = os.Remove(file)
 	if err != nil {
